@@ -323,3 +323,16 @@ Definition send_pages_gen (a : N) (src : list (prog unit * list N)) : prog flip_
 (* ... that makes the calls [fst item] (each under [catch]) before it yields the page [snd item] *)
 Definition send_pages_with (a : N) (items : list (list cop * page)) : prog flip_style :=
   send_pages_gen a (map (fun it => (prelude (fst it), p_bytes (snd it))) items).
+
+(* A caller's iterator may also catch a PANIC of a call it makes (catch_unwind) and carry on: *)
+Fixpoint catch_all {A : Type} (p : prog A) : prog unit :=
+  match p with
+  | Ret _ => Ret tt
+  | Fail => Ret tt
+  | Crash => Ret tt
+  | Send m k => Send m (fun r => catch_all (k r))
+  end.
+
+(* send_pages over a source that yields the pages and panics when asked for one more *)
+Definition send_pages_then_panic (a : N) (pages : list page) : prog flip_style :=
+  send_pages_gen a (map (fun p => (Ret tt, p_bytes p)) pages ++ [(Crash, [])]).
